@@ -120,8 +120,8 @@ def audit_lookup(ctx, cases, tag):
         out = []
         for a in c["answers"]:
             name = bytes(a["name"])
-            if b"\n" in name or b"\0" in name:
-                continue
+            if b"\n" in name or b"\0" in name or name.startswith(b"-"):
+                continue        # not observable through the command line
             r = git(["config", "-f", p, "-z", "--get-all", name])
             want = b"".join(bytes(v) + b"\0" for v in a["gvalues"])
             if (r.returncode == 0) != bool(a["gvalues"]) or r.stdout != want:
@@ -204,7 +204,7 @@ def run(ctx):
     binary = ctx.build("vh-c27")
     plan = [("value", 4, "FALSE"), ("struct", 4, "FALSE"), ("typed", 3, "FALSE")]
     if ctx.thorough:
-        plan = [("value", 5, "FALSE"), ("value", 3, "TRUE"), ("struct", 5, "FALSE"), ("struct", 3, "TRUE"), ("typed", 3, "TRUE"), ("typed", 4, "FALSE")]
+        plan = [("value", 5, "FALSE"), ("value", 3, "TRUE"), ("struct", 4, "FALSE"), ("struct", 3, "TRUE"), ("typed", 3, "TRUE"), ("typed", 4, "FALSE")]
     cases, typed, seen = [], [], set()
     for mode, mt, wide in plan:
         for c in ctx.tlc_gen("config", "ConfigValues_Gen", consts={"MaxToks": mt, "Mode": '"%s"' % mode, "Wide": wide}, workers=6):
@@ -234,15 +234,15 @@ def run(ctx):
     # binding C
     tids = {id(c) for c in typed}
     others = [c for c in cases if id(c) not in tids]
-    lim = 1000 if not ctx.thorough else 30000
+    lim = 1000 if not ctx.thorough else 6000
     sub = others if len(others) <= lim else [others[i] for i in sorted(ctx.rng.sample(range(len(others)), lim))]
     fmt.audit(ctx, sub, "list")
     lq = [c for c in sub if c["indomain"] and c["answers"]]
-    audit_lookup(ctx, lq[: 400 if not ctx.thorough else 12000], "gen")
+    audit_lookup(ctx, lq[: 400 if not ctx.thorough else 2500], "gen")
     audit_typed(ctx, typed, 120 if not ctx.thorough else 1500)
 
     # binding B: seeded random texts; the spec derives the queries from its own listing
-    nr = 250 if not ctx.thorough else 5000
+    nr = 250 if not ctx.thorough else 1500
     rnd = [b2l(b) for b in fmt.BASES]
     while len(rnd) < nr:
         b = fmt.mutate(ctx.rng, ctx.rng.choice(fmt.BASES))
@@ -269,8 +269,8 @@ def run(ctx):
         ctx.violation({"kind": "random-trace", "what": "answer rejected by ConfigValues_Trace", "classes": ["trace"],
                        "case": {"input": e["input"]}, "query": e["q"], "input_text": show_bytes(e["input"]), "event": e})
     ctx.cov["random_texts_in_domain"] = len(rj)
-    fmt.audit(ctx, rc[:150] if not ctx.thorough else rc[:2000], "random")
-    audit_lookup(ctx, rj[:60] if not ctx.thorough else rj[:1500], "random")
+    fmt.audit(ctx, rc[:150] if not ctx.thorough else rc[:1000], "random")
+    audit_lookup(ctx, rj[:60] if not ctx.thorough else rj[:600], "random")
     hist = {}
     for v in ctx.violations:
         k = v["kind"] + ":" + "+".join(v["classes"])
